@@ -13,6 +13,7 @@ from common import pyval_sexpr
 from sexpr import q
 
 KEYS = ["a", "b", "c", "mode"]
+ROOT_ARGS = [ast.Constant(value="hi"), ast.Constant(value=7)]
 LAMS_SELECT = ["lambda e: e.x", "lambda e: (e.x, e.y)", "lambda j: j.pt() * 2", "lambda e: e.jets.Select(lambda j: j.pt)",
                "lambda x: x"]
 LAMS_WHERE = ["lambda e: e.x > 1", "lambda j: j.pt() > 30 and j.eta < 2", "lambda e: not (e.x == 0)", "lambda e: e.a < e.b < e.c"]
@@ -23,7 +24,7 @@ def gen_history(rng, n_ops: int) -> List[tuple]:
     """ops: ('dataset',) | ('derive', s, opname, lambda_src) | ('metadata', s, dict) | ('qmeta', s, dict)
     | ('terminal', s, kind, args) | ('value', s, override|None, title|None, outcome) |
     ('gather', [(s, override, title, outcome)...], completion_permutation)"""
-    ops: List[tuple] = [("dataset",)]
+    ops: List[tuple] = [("dataset", rng.choice([0, 0, 1]))]
     n_streams = 1
     last_q: Optional[dict] = None
     for _ in range(n_ops):
@@ -31,7 +32,7 @@ def gen_history(rng, n_ops: int) -> List[tuple]:
         s = rng.randrange(n_streams) if rng.random() < 0.4 else max(0, n_streams - 1 - rng.choice([0, 0, 0, 1, 2]))
         s = min(s, n_streams - 1)
         if r < 0.07:
-            ops.append(("dataset",))
+            ops.append(("dataset", rng.choice([0, 0, 1, 2])))  # number of extra arguments on the root EventDataset(...) node
             n_streams += 1
         elif r < 0.37:
             kind = rng.choice(["Select", "Where", "SelectMany"])
@@ -42,13 +43,20 @@ def gen_history(rng, n_ops: int) -> List[tuple]:
             d = rng.choice([{}, {}, {"k": "v"}, {"m": [1, "it's"]}, {"a": 1, "b": {"c": None}}])
             ops.append(("metadata", s, d))
             n_streams += 1
+            if not d and rng.random() < 0.5:
+                # empty wrappers stacked directly on each other, then (often) executed
+                for _ in range(rng.choice([1, 1, 2])):
+                    ops.append(("metadata", n_streams - 1, rng.choice([{}, {}, {"k": "v"}])))
+                    n_streams += 1
+                if rng.random() < 0.6:
+                    ops.append(("value", n_streams - 1, None, None, "ok"))
         elif r < 0.72:
             if last_q is not None and rng.random() < 0.3:
                 d = dict(last_q)  # repeat the same dictionary (equal values)
             else:
                 d = {}
                 for k in rng.sample(KEYS, rng.choice([1, 1, 2, 3])):
-                    d[k] = rng.choice([1, 2, 3, "fast", "slow", "x"])
+                    d[k] = rng.choice([1, 2, 3, 0, "fast", "slow", "x", ""])  # falsy values are values too
             last_q = d
             ops.append(("qmeta", s, d))
             n_streams += 1
@@ -108,7 +116,8 @@ def lean_ops(ops, types=None) -> str:
     for op in ops:
         k = op[0]
         if k == "dataset":
-            out.append(f'(dataset {ty()})')
+            n_args = op[1] if len(op) > 1 else 0
+            out.append(f'(dataset {ty()} ({" ".join(enc(a) for a in ROOT_ARGS[:n_args])}))')
         elif k == "derive":
             out.append(f'(derive {op[1]} {q(op[2])} ({enc(parse_expr(op[3]))}) {ty()})')
         elif k == "metadata":
@@ -173,9 +182,11 @@ class Runner:
         runner = self
 
         class DS(EventDataset):
-            def __init__(self, idx, log):
+            def __init__(self, idx, log, n_args=0):
                 super().__init__()
                 self.idx, self.log = idx, log
+                # a dataset class may carry arguments on its root node (as tests/test_event_dataset.py my_event_extra_args)
+                self.query_ast.args.extend(copy.deepcopy(ROOT_ARGS[:n_args]))
 
             async def execute_result_async(self, a, title=None):
                 # identity matters: a derived stream is a shallow copy of the dataset object
@@ -323,7 +334,8 @@ class Runner:
                 try:
                     if k == "dataset":
                         idx = len(self.streams)
-                        d, t = self.DS(idx, self.calls), self.DS(idx, self.calls)
+                        n_args = op[1] if len(op) > 1 else 0
+                        d, t = self.DS(idx, self.calls, n_args), self.DS(idx, self.calls, n_args)
                         self.roots[idx] = d
                         self.add(d, t, idx, [])
                     elif k == "derive":
